@@ -10,7 +10,7 @@ import lib
 from props import fsx
 
 ID = 'C13'
-GEN_FILES = ['T_files_build', 'T_files_file', 'T_build_do']
+GEN_FILES = ['T_file_proto', 'T_build_do']
 COQ_PROPERTY = 'theories/Properties/C13.vo'
 COQ_EXTRA = []
 MODEL = ('ExC13', 'c13_main.ml')
@@ -626,7 +626,7 @@ def compare(case, obs, answers):
         if len(calls) != 1:
             return 'model: to_file called; implementation: rc=%r raised=%r, no to_file call' % (obs['rc'], obs['raised_full'])
         c = calls[0]
-        wname = {'default': None, 'minify': 'LuaMinifyTokenWriter', 'format-tuple': 'tuple'}[writer]
+        wname = {'default': None, 'minify': 'LuaMinifyTokenWriter', 'format': 'LuaFormatterWriter', 'format-tuple': 'tuple'}[writer]
         got = _cart_str(c['ids'], c['label'], c['version'])
         if 'C.' + cart != got or c['writer'] != wname or c['filename'] != case['out']:
             return 'model writes cart %s with writer %s to %s; implementation passed %s writer %s to %s' % (
